@@ -4,18 +4,25 @@
 //   drv_config oneline <scenario.json>   child: Logger::configure(path, size, count, options, async)
 //   drv_config install <histories.json>  in-process: install / restore / foreign-handler histories; the handler
 //                                        Qt currently calls is read after every step
+//   drv_config utils <histories.json>    one forked child per history: setMessagePattern / restorePrevious /
+//                                        direct qSetMessagePattern calls (returned text + a formatted probe after
+//                                        every step), and setFilterRules probes (spec/QtlUtils.tla)
 // In the child modes the parent captures stdout, stderr and the log file.
 #include <QCoreApplication>
 #include <QFile>
 #include <QJsonArray>
 #include <QJsonDocument>
 #include <QJsonObject>
+#include <QLoggingCategory>
 #include <QSettings>
 #include <QTimer>
 
 #include <iostream>
+#include <sys/wait.h>
+#include <unistd.h>
 
 #include "logger.h"
+#include "utils.h"
 
 using namespace QtLogger;
 
@@ -95,6 +102,70 @@ int main(int argc, char **argv)
             qInstallMessageHandler(nullptr);
         }
         std::cout.flush();
+        return 0;
+    }
+
+    if (mode == "utils") {
+        for (const QByteArray &line : all.split('\n')) {
+            if (line.trimmed().isEmpty())
+                continue;
+            std::cout.flush();
+            const pid_t pid = fork();
+            if (pid == 0) {
+                const QJsonObject h = QJsonDocument::fromJson(line).object();
+                auto put = [](const QJsonObject &o) {
+                    std::cout << QJsonDocument(o).toJson(QJsonDocument::Compact).constData() << "\n";
+                };
+                QJsonObject r;
+                r["e"] = "Reset";
+                r["id"] = h["id"];
+                put(r);
+                for (const auto &v : h["ops"].toArray()) {
+                    const QJsonObject op = v.toObject();
+                    const QString kind = op["op"].toString();
+                    QJsonObject o;
+                    if (kind == "rules") {
+                        o["e"] = "Rules";
+                        o["arg"] = op["arg"];
+                        auto probe = [&op]() {
+                            QJsonArray res;
+                            for (const auto &pv : op["probes"].toArray()) {
+                                const QByteArray cat = pv.toArray().at(0).toString().toUtf8();
+                                QLoggingCategory c(cat.constData());
+                                res.append(c.isEnabled(QtMsgType(pv.toArray().at(1).toInt())));
+                            }
+                            return res;
+                        };
+                        QtLogger::setFilterRules(op["arg"].toString());
+                        o["got"] = probe();
+                        QLoggingCategory::setFilterRules(op["joined"].toString());
+                        o["want"] = probe();
+                        QLoggingCategory::setFilterRules(QString());
+                    } else {
+                        o["e"] = "P";
+                        o["op"] = kind;
+                        if (kind == "set")
+                            o["ret"] = QtLogger::setMessagePattern(op["text"].toString(QStringLiteral("")));
+                        else if (kind == "restore")
+                            o["ret"] = QtLogger::restorePreviousMessagePattern();
+                        else
+                            qSetMessagePattern(op["text"].toString(QStringLiteral("")));
+                        QMessageLogContext ctx("f.cpp", 3, "void g()", "c");
+                        o["probe"] = qFormatLogMessage(QtWarningMsg, ctx, QStringLiteral("x"));
+                        o["arg"] = op["arg"];
+                    }
+                    put(o);
+                }
+                std::cout.flush();
+                _exit(0);
+            }
+            int st = 0;
+            waitpid(pid, &st, 0);
+            if (!WIFEXITED(st) || WEXITSTATUS(st) != 0) {
+                std::cerr << "utils child failed\n";
+                return 3;
+            }
+        }
         return 0;
     }
 
